@@ -263,9 +263,12 @@ class Run:
                 else:
                     c._stop()
                 self.ev('stop-end', who, st[1], self.now())
-            elif op == 'sleep':
-                from mc import vthreading as vt
-                vt.SCHED.sleep(st[1], exact=True)
+            elif op in ('sleep', 'block'):
+                # 'block' inside a routine body = the body takes physical
+                # time (system load) while logical time stands still
+                if self.mode == 'rt':
+                    from mc import vthreading as vt
+                    vt.SCHED.sleep(st[1], exact=True)
             elif op == 'deliver':
                 data = bytes.fromhex(st[1])
                 main._osc_interface._handle_request(data, ('127.0.0.1', st[2]))
